@@ -176,7 +176,26 @@ func (x *c03) findSerializers() {
 
 // bufferFits: the buffer handed to serializer g at this call site is sized for it. Returns "" or why not.
 func (x *c03) bufferFits(caller *ssa.Function, ci ssa.CallInstruction, buf ssa.Value, g *ssa.Function) string {
-	lenCallOn := func(v ssa.Value, recv ssa.Value) bool {
+	var lenCallOn func(v ssa.Value, recv ssa.Value) bool
+	lenCallOn = func(v ssa.Value, recv ssa.Value) bool {
+		// a size handed in by the only caller of an unexported helper: judged at that call site
+		if vp, isP := flow.Peel(v).(*ssa.Parameter); isP {
+			if cs := x.c.uniqueSite(vp.Parent()); cs != nil {
+				args := cs.Common().Args
+				if i := paramIndex(vp.Parent(), vp); i < len(args) {
+					r2 := recv
+					if rp, isRP := flow.Peel(recv).(*ssa.Parameter); isRP && rp.Parent() == vp.Parent() {
+						if j := paramIndex(rp.Parent(), rp); j < len(args) {
+							r2 = args[j]
+						}
+					}
+					if _, again := flow.Peel(args[i]).(*ssa.Parameter); !again {
+						return lenCallOn(args[i], r2)
+					}
+				}
+			}
+			return false
+		}
 		call, ok := flow.Peel(v).(*ssa.Call)
 		if !ok {
 			return false
@@ -2008,8 +2027,20 @@ func (x *c03) gbuf(v *ssa.Slice) string {
 	if !ok || !flow.IsCallTo(call, "bytes", "Buffer", "Bytes") {
 		return ""
 	}
-	bc, ok := call.Call.Args[0].(*ssa.Call)
-	if !ok || len(bc.Call.Args) != 1 || !sameVal(bc.Call.Args[0], v.High) {
+	bufV, high := call.Call.Args[0], v.High
+	// buffer and size handed in together by the only caller of an unexported helper
+	if bp, isP := flow.Peel(bufV).(*ssa.Parameter); isP {
+		if hp, isH := flow.Peel(high).(*ssa.Parameter); isH && hp.Parent() == bp.Parent() {
+			if cs := x.c.uniqueSite(bp.Parent()); cs != nil {
+				args := cs.Common().Args
+				if i, j := paramIndex(bp.Parent(), bp), paramIndex(hp.Parent(), hp); i < len(args) && j < len(args) {
+					bufV, high = args[i], args[j]
+				}
+			}
+		}
+	}
+	bc, ok := bufV.(*ssa.Call)
+	if !ok || len(bc.Call.Args) != 1 || !sameVal(bc.Call.Args[0], high) {
 		return ""
 	}
 	if g := flow.StaticCallee(bc); g != nil && x.allocatesAtLeastParam(g) {
